@@ -205,7 +205,7 @@ func snapshotOne(snapDir, targetPath string) (SnapshotEntry, error) {
 	mode := info.Mode()
 	entry := SnapshotEntry{
 		Path:    targetPath,
-		Mode:    uint32(mode.Perm()),
+		Mode:    unixModeBits(mode),
 		Size:    info.Size(),
 		Present: true,
 	}
@@ -242,6 +242,39 @@ func snapshotOne(snapDir, targetPath string) (SnapshotEntry, error) {
 	}
 
 	return entry, nil
+}
+
+// unixModeBits returns the permission bits of m plus setuid, setgid and
+// sticky in the traditional octal layout (04000 / 02000 / 01000), so a
+// rollback can put back exactly the mode the artifact had.
+func unixModeBits(m os.FileMode) uint32 {
+	bits := uint32(m.Perm())
+	if m&os.ModeSetuid != 0 {
+		bits |= 0o4000
+	}
+	if m&os.ModeSetgid != 0 {
+		bits |= 0o2000
+	}
+	if m&os.ModeSticky != 0 {
+		bits |= 0o1000
+	}
+	return bits
+}
+
+// specialModeBits is the inverse of unixModeBits for the three bits
+// above the permission bits.
+func specialModeBits(unix uint32) os.FileMode {
+	var m os.FileMode
+	if unix&0o4000 != 0 {
+		m |= os.ModeSetuid
+	}
+	if unix&0o2000 != 0 {
+		m |= os.ModeSetgid
+	}
+	if unix&0o1000 != 0 {
+		m |= os.ModeSticky
+	}
+	return m
 }
 
 // mangleArtifactRelpath converts an absolute artifact path into a
